@@ -13,8 +13,10 @@
 
     State of an aggregator = its own [types] collection, the [imports] IndexMap (insertion-ordered association
     list), the [remapped] HashMap (foreign type -> local type; only get/insert, so a list), the [interfaces]
-    HashMap (name -> interface id; ITERATED by [find_semver_compatible_interface], so the iteration order is an
-    explicit argument [ord]), and [name_redirects] (only get/insert/values_mut, so a list).
+    map (name -> interface id; ITERATED by [find_semver_compatible_interface]: a HashMap when this model was written,
+    an insertion-ordered IndexMap since repository commit 02411ca; the iteration order stays an explicit argument
+    [ord], the identity for the IndexMap, and the theorems hold for every [ord] that only yields entries of the table),
+    and [name_redirects] (only get/insert/values_mut, so a list).
     The [SubtypeChecker] is owned by the caller and shared by all aggregations: its state [st] is threaded.
 
     Results: [AOk], [AErr class], [APanic] (arena indexing with a foreign/dangling identifier, [unwrap]/[expect]/
